@@ -510,6 +510,7 @@ func runHistory(r *vk.Run, c *vk.Case) {
 }
 
 func main() {
+	cm.RaceExitGuard()
 	_ = logger.SetLogLevel("*:NONE")
 	r := vk.Start("C09")
 	r.Rule("each case is one chain history of 15-60 ops over 6 accounts + a counter account (unique block roots): commit (balance/code/storage write+delete, account removal/re-creation, in-block slot flip-flops; small key/value sets so node hashes recur across blocks), finalize the next block through the real updateStateStorage (pruning queue 0-3), roll back the head (RevertStateToBlock + PruneStateOnRollback), Enter/ExitPruningBufferingMode, real SnapshotState/SetStateCheckpoint of the new final root held at the first traversal read for 1-4 ops. Profiles by case index mod 4: never blocked / blocked but never rolled back while blocked / blocked with rollbacks (explicit) / blocked with rollbacks + real snapshots. A history is non-trivial when at least one prune was executed; distinct = distinct (queue, waiting-list cache, buffer, profile, set of pruning events) signatures.")
